@@ -592,7 +592,9 @@ class Function(ClassOrFunc):
                 try:
                     nested_children = element.children
                 except AttributeError:
-                    if element.value == 'yield':
+                    # Other leaves, like the literal part of an f-string, can
+                    # have the same value.
+                    if element.type == 'keyword' and element.value == 'yield':
                         if element.parent.type == 'yield_expr':
                             yield element.parent
                         else:
